@@ -25,6 +25,9 @@ pub enum Placement {
 
 #[derive(Debug, Clone, Serialize, Deserialize)]
 pub struct EvoCase {
+    /// Some(h): history h of the compiled batch (types H{h}V{i}, derive-macro code); None: run-time history from `spec`
+    #[serde(default)]
+    pub compiled: Option<usize>,
     pub spec: HistorySpec,
     pub w: usize,
     pub r: usize,
@@ -50,6 +53,43 @@ pub fn decl_name(spec: &HistorySpec, i: usize) -> String {
     format!("DynH{:08x}v{i}", hash_json(spec) as u32)
 }
 
+fn case_versions(c: &EvoCase) -> Vec<Record> {
+    match c.compiled {
+        Some(h) => crate::props::derived::batch().histories[h]
+            .iter()
+            .map(|d| match &d.body {
+                vmodel::DeclBody::Struct(r) => r.clone(),
+                _ => unreachable!(),
+            })
+            .collect(),
+        None => versions_of(&c.spec),
+    }
+}
+
+fn case_decl_name(c: &EvoCase, i: usize) -> String {
+    match c.compiled {
+        Some(h) => format!("H{h}V{i}"),
+        None => decl_name(&c.spec, i),
+    }
+}
+
+pub fn compiled_evo_strategy(h: usize) -> BoxedStrategy<EvoCase> {
+    let decls = crate::props::derived::batch().histories[h].clone();
+    let n = decls.len();
+    // DeduplicatedString anywhere inside (also in nested declarations) rules out cross-version reading
+    let dedup = crate::props::derived::batch().dedup_histories[h] || decls.iter().any(|d| Ty::Adt(d.clone()).any(&|t| *t == Ty::Dedup));
+    (0..n, 0..n, prop::sample::select(vec![Placement::Top, Placement::Top, Placement::Between, Placement::Between, Placement::InVec, Placement::InOption]))
+        .prop_flat_map(move |(w, r, placement)| {
+            // cross-version reading with DeduplicatedString fields is documented as unsupported
+            let r = if dedup { w } else { r };
+            let tw = wrap(placement, Ty::Adt(decls[w].clone()));
+            let cfg = ValCfg { max_len: 3, long: false, ..ValCfg::default() };
+            (Just(w), Just(r), Just(placement), val_strategy(&tw, cfg))
+        })
+        .prop_map(move |(w, r, placement, val)| EvoCase { compiled: Some(h), spec: HistorySpec { init: vec![], steps: vec![], seed: 0 }, w, r, placement, val })
+        .boxed()
+}
+
 pub fn evo_case_strategy(max_init: usize, max_steps: usize) -> BoxedStrategy<EvoCase> {
     (history_spec_strategy(max_init, max_steps), any::<u16>(), any::<u16>(), prop::sample::select(vec![Placement::Top, Placement::Top, Placement::Between, Placement::Between, Placement::InVec, Placement::InOption]))
         .prop_flat_map(|(spec, ws, rs, placement)| {
@@ -60,7 +100,7 @@ pub fn evo_case_strategy(max_init: usize, max_steps: usize) -> BoxedStrategy<Evo
             let cfg = ValCfg { max_len: 3, long: false, ..ValCfg::default() };
             (Just(spec), Just(w), Just(r), Just(placement), val_strategy(&tw, cfg))
         })
-        .prop_map(|(spec, w, r, placement, val)| EvoCase { spec, w, r, placement, val })
+        .prop_map(|(spec, w, r, placement, val)| EvoCase { compiled: None, spec, w, r, placement, val })
         .boxed()
 }
 
@@ -90,7 +130,7 @@ fn expected_wrapped(p: Placement, versions: &[Record], w: usize, r: usize, v: &V
 }
 
 pub fn check_c03(c: &EvoCase, acc: &mut Acc, record: bool) -> Verdict {
-    let versions = versions_of(&c.spec);
+    let versions = case_versions(c);
     if c.w >= versions.len() || c.r >= versions.len() {
         return Verdict::Skip; // a shrunk spec lost the step the indices referred to
     }
@@ -101,8 +141,8 @@ pub fn check_c03(c: &EvoCase, acc: &mut Acc, record: bool) -> Verdict {
         }
         return Verdict::Skip;
     }
-    let tw = wrap(c.placement, Ty::Adt(struct_decl(&decl_name(&c.spec, c.w), &versions[c.w])));
-    let tr = wrap(c.placement, Ty::Adt(struct_decl(&decl_name(&c.spec, c.r), &versions[c.r])));
+    let tw = wrap(c.placement, Ty::Adt(struct_decl(&case_decl_name(c, c.w), &versions[c.w])));
+    let tr = wrap(c.placement, Ty::Adt(struct_decl(&case_decl_name(c, c.r), &versions[c.r])));
     let mut classes = Vec::new();
     let expected = expected_wrapped(c.placement, &versions, c.w, c.r, &c.val, &mut classes);
     let (enc, _) = vcat::encode(&tw, &c.val);
@@ -119,11 +159,11 @@ pub fn check_c03(c: &EvoCase, acc: &mut Acc, record: bool) -> Verdict {
             classes.push("no serialized field".into());
         }
         for cl in &classes {
-            acc.case(&format!("{cl} [{rel}] {:?}", c.placement), h, c.w != c.r);
+            acc.case(&format!("{}{cl} [{rel}] {:?}", if c.compiled.is_some() { "compiled: " } else { "" }, c.placement), h, c.w != c.r);
         }
         // count the case once
         acc.evaluations -= classes.len() as u64 - 1;
-        let cl = format!("{} [{rel}] {:?}", classes[0], c.placement);
+        let cl = format!("{}{} [{rel}] {:?}", if c.compiled.is_some() { "compiled: " } else { "" }, classes[0], c.placement);
         if c.w != c.r && acc.wants_sample(&cl) {
             acc.sample(&cl, json!({"steps": format!("{:?}", versions.last().unwrap().steps), "writer_version": c.w, "reader_version": c.r, "placement": format!("{:?}", c.placement), "value": c.val.brief(), "bytes_hex": hex(&bytes[..bytes.len().min(64)]), "expected": format!("{:?}", expected.as_ref().map(|v| v.brief()))}));
         }
@@ -131,6 +171,8 @@ pub fn check_c03(c: &EvoCase, acc: &mut Acc, record: bool) -> Verdict {
     let (got, rest) = vcat::decode_with_rest(&tr, &bytes);
     match (&expected, &got) {
         (Ok(e), Ok(g)) => {
+            // nested declarations inside the fields have transient fields of their own
+            let e = &vmodel::with_transient_defaults(&tr, e);
             if canon(&tr, g) != canon(&tr, e) {
                 return Verdict::Fail(format!("version {} read data of version {} as {} — documented outcome is {} (steps {:?}, bytes {})", c.r, c.w, g.brief(), e.brief(), versions.last().unwrap().steps, hex(&bytes)));
             }
@@ -159,15 +201,28 @@ pub fn check_c03(c: &EvoCase, acc: &mut Acc, record: bool) -> Verdict {
 
 pub fn run_c03(cx: &Cx) -> PropResult {
     let per_shard = cx.n(6_000, 300_000);
+    let per_compiled = cx.n(1_500, 40_000);
     let acc = parallel(cx, &|shard, acc| {
         // mostly short histories (every pair is then likely to be hit), some long ones
+        // E2: every history of the compiled batch, all version pairs, through the derive macro's code
+        let nh = crate::props::derived::batch().histories.len();
+        for h in 0..nh {
+            if h % cx.shards != shard {
+                continue;
+            }
+            let strat = compiled_evo_strategy(h);
+            if drive(crate::run::tag_seed(derive_seed(cx.seed, cx.prop, h as u64, 7), 10 + h as u64), &strat, per_compiled, acc, &|c: &EvoCase| to_json(c), &mut |c, a, r| check_c03(c, a, r)) {
+                return;
+            }
+            acc.bump("compiled_histories", 1);
+        }
         let strat = if shard % 4 == 3 { evo_case_strategy(6, 40) } else { evo_case_strategy(5, 8) };
         drive(crate::run::tag_seed(derive_seed(cx.seed, cx.prop, shard as u64, 0), 0), &strat, per_shard, acc, &|c: &EvoCase| to_json(c), &mut |c, a, r| check_c03(c, a, r));
     });
     let mut r = PropResult::new(
         acc,
         "exploration",
-        "cases = (legal evolution history H built by construction from a generated spec: 0-6 initial fields incl. transient ones, up to 8 (every 4th shard: 40) steps of FieldAdded at a random declaration position / FieldMadeOptional / FieldRemoved / FieldMadeTransient; writer version w; reader version r; value of version w; placement: top level, between two sibling fields of a tuple, element of a Vec, inside Option). Both versions are driven through AdtSerializer / AdtDeserializer exactly as the derive expansion does (E3; validated against the real expansion by C02). Oracle: expected(H, w, r, v) computed on the logical level from the documentation (default / wrap / unwrap / absent-if-optional / the two specific errors with the field name, first error in declaration order), siblings intact and the whole buffer consumed. Non-trivial = w != r; classes = reader branch x (w<r, w=r, w>r) x placement.",
+        "E3 cases = (legal evolution history H built by construction from a generated spec: 0-6 initial fields incl. transient ones, up to 8 (every 4th shard: 40) steps of FieldAdded at a random declaration position / FieldMadeOptional / FieldRemoved / FieldMadeTransient; writer version w; reader version r; value of version w; placement: top level, between two sibling fields of a tuple, element of a Vec, inside Option). Both versions are driven through AdtSerializer / AdtDeserializer exactly as the derive expansion does (E3; validated against the real expansion by C02). Oracle: expected(H, w, r, v) computed on the logical level from the documentation (default / wrap / unwrap / absent-if-optional / the two specific errors with the field name, first error in declaration order), siblings intact and the whole buffer consumed. Non-trivial = w != r; classes = reader branch x (w<r, w=r, w>r) x placement. E2 cases: the same check on all versions of the 36 histories of the compiled batch (types H{h}V{i} generated by vgen and compiled with the real derive macro), all (w, r) pairs; histories with DeduplicatedString fields only with w = r.",
     );
     r.assumptions = vec![
         "DESIGN section 9: embedded placement with stored version 0 and a removed chunk-0 field is outside the quantifier (counted under excluded_by_construction)".into(),
